@@ -144,6 +144,17 @@ ZOO: dict[str, dict] = {
         "nodes": copy.deepcopy(_LIST),
         "marks": {"small1": {}, "big": {"excludes": "small1 small2"}, "em": {}, "small2": {}},
     },
+    # asymmetric chain: hi excludes note, lock excludes hi (but not the other way round); note and lock coexist
+    "asym_chain": {
+        "nodes": copy.deepcopy(_LIST),
+        "marks": {
+            "note": {},
+            "lock": {"excludes": "hi"},
+            "hi": {"excludes": "note"},
+            "em": {},
+            "link": {"attrs": {"href": {}, "title": {"default": None}}, "inclusive": False},
+        },
+    },
     "remark_user": {
         "nodes": copy.deepcopy(_LIST),
         "marks": {
@@ -168,7 +179,7 @@ GROUP_V = [
     "table_iso",
 ]
 GROUP_X = ["fixed", "structure"]
-MARK_VARIANTS = ["comment", "big_small", "remark_user"]
+MARK_VARIANTS = ["comment", "big_small", "remark_user", "asym_chain"]
 ISOLATING = ["iso", "table", "table_strict", "table_iso"]
 
 _cache: dict[str, tuple[Any, RefSchema]] = {}
